@@ -327,6 +327,37 @@ def gate_files(ctx, rng):
                 ctx.fail(f'file written under the conventions of version {V} is not read under them: {p}', desc)
 
 
+def reused_writers(ctx, rng):
+    """one cropper object writing several files in sequence: every output states its own true axes (the optional
+    double-precision start / interval fields included), whatever was written before it"""
+    for k in range(ctx.n(3, 30)):
+        dt = int(rng.choice([200, 300, 700, 1100]))       # sample positions on fractional milliseconds
+        n = (int(rng.integers(4, 9)), int(rng.integers(4, 9)), 3 * 256 + int(rng.integers(1, 200)))
+        fi = synth.make(ctx.path('rw_src.sgz'), n, (4, 4, 256), 32, rng, z=(int(rng.integers(0, 3)) * 10, dt), n_arrays=2)
+        boxes = [(256, 512), (0, 256), (512, n[2]), (0, 256), (256, n[2])]
+        order = [boxes[j] for j in rng.permutation(len(boxes))[:4]]
+        desc = {'n': n, 'dt_us': dt, 'z0': fi.z[0], 'crops_in_order': order}
+        with symcodec.symbolic_decoder():
+            try:
+                with SgzCropper(fi.path) as cr:
+                    for j, (z0, z1) in enumerate(order):
+                        out = ctx.path(f'rw_{j}.sgz')
+                        env.quiet(cr.write_cropped_file_by_indexes, out, None, None, (z0, z1))
+                        ctx.case(('reused-cropper', n, dt, tuple(order[:j + 1])), sample=desc if j == 0 else None)
+                        ctx.stats['reused_cropper_outputs'] += 1
+                        d = dict(desc, output=j, z_range=(z0, z1))
+                        for p_ in spec.conformance_problems(out):
+                            ctx.fail(f'crop #{j} of a reused cropper not conformant: {p_}', d)
+                        with SgzReader(out) as r:
+                            got = np.asarray(r.zslices, dtype=np.float64)
+                        want = np.asarray(fi.z[z0:z1], dtype=np.float64)
+                        if got.shape != want.shape or not np.allclose(got, want, rtol=0, atol=1e-6):
+                            ctx.fail(f'crop #{j} of a reused cropper states sample axis {got[:2].tolist()}.., the source axis '
+                                     f'restricted to the box is {want[:2].tolist()}..', d)
+            except Exception as e:  # noqa
+                ctx.fail(f'reused cropper failed: {type(e).__name__}: {str(e)[:120]}', desc)
+
+
 def run(ctx):
     model = core.Model()
     rng = gen.rng_for(ctx.seed, 'c03')
@@ -335,6 +366,7 @@ def run(ctx):
         version_part(ctx, model, rng)
         writers_part(ctx, rng)
         gate_files(ctx, rng)
+        reused_writers(ctx, gen.rng_for(ctx.seed, 'c03-reused'))
     finally:
         model.close()
 
